@@ -119,6 +119,34 @@ def run(ctx):
             if Gm.globmatch(''.join(n2), p, flags=Gm.FORCEWIN) != got:
                 ctx.counterexample('FORCEWIN: %r and %r (one separator respelled) differ on %r' % (n, ''.join(n2), p),
                                    {'pattern': p, 'name': n, 'name2': ''.join(n2)})
+    # drive letters, UNC shares and device-namespace prefixes are literal, case-insensitive prefixes - also under CASE,
+    # however the keywords (UNC, GLOBAL) and host/share names are spelled
+    prefixes = ['c:', '//host/share', '//?/c:', '//./c:', '//?/UNC/Host/Share', '//./UNC/Host/Share', '//?/GLOBAL/c:', '//?/GLOBAL/UNC/Host/Share',
+                '//?/GLOBAL/GLOBAL/UNC/Host/Share', '//?/GLOBAL/GLOBAL/Dev', '//?/Volume1']
+    for pre in prefixes:
+        for spell in (pre, pre.lower(), pre.upper(), pre.swapcase()):
+            for fl_ in (Gm.FORCEWIN, Gm.FORCEWIN | Gm.CASE):
+                pat = spell + '/*.txt'
+                for nm_pre in (pre, pre.lower(), pre.upper()):
+                    for sepf in (lambda x: x, lambda x: x.replace('/', '\\')):
+                        name = sepf(nm_pre + '/File.txt')
+                        evals += 1
+                        got = Gm.globmatch(name, pat, flags=fl_)
+                        gotb = Gm.globmatch(name.encode(), pat.encode(), flags=fl_)
+                        if not got or not gotb:
+                            ctx.counterexample('FORCEWIN%s: globmatch(%r, %r) = %r (bytes %r): the drive prefix is a literal, case-insensitive prefix' % (
+                                '|CASE' if fl_ & Gm.CASE else '', name, pat, got, gotb), {'pattern': pat, 'name': name, 'flags': corr.flag_names(fl_)})
+                # a different host/share/drive does not match
+                other = spell[:-1] + ('x' if spell[-1].lower() != 'x' else 'y') + '/File.txt'
+                evals += 1
+                if Gm.globmatch(other, pat, flags=fl_):
+                    ctx.counterexample('FORCEWIN: globmatch(%r, %r) is True although the drive differs' % (other, pat), {'pattern': pat, 'name': other})
+                # under CASE the part after the drive is case-sensitive
+                if fl_ & Gm.CASE:
+                    evals += 1
+                    if Gm.globmatch(pre + '/FILE.TXT', spell + '/file.txt', flags=fl_):
+                        ctx.counterexample('FORCEWIN|CASE: %r matches %r (the rest of the path must stay case-sensitive)' % (spell + '/file.txt', pre + '/FILE.TXT'),
+                                           {'pattern': spell + '/file.txt', 'name': pre + '/FILE.TXT'})
     ctx.counted('mode table + metamorphic closure', evals, len(nontriv), [{'pattern': 'a*C', 'name': 'aXc'}, {'pattern': '//host/share/*', 'name': '\\\\host\\share\\x'}])
     return ctx.finish(RULE)
 
